@@ -18,6 +18,8 @@ PENDING = "no theorem built for this property yet (staging, DESIGN.md section 9)
 
 
 def main():
+    global CLAIMED
+    CLAIMED = json.load(open(os.path.join(VERIF, 'claimed.json')))
     checks = []
     na = []
     for pid in ALL:
@@ -25,7 +27,7 @@ def main():
         if pid in NOT_APPLICABLE:
             na.append({'property_id': pid, 'reason': NOT_APPLICABLE[pid]})
             continue
-        if not os.path.exists(path):
+        if not os.path.exists(path) or pid not in CLAIMED:
             na.append({'property_id': pid, 'reason': PENDING})
             continue
         src = open(path).read()
